@@ -755,6 +755,8 @@ pub fn snapshot_text(env: &mut Env<VS>) -> String {
     lines.push(format!("ttyfg={:?}", world_state().borrow().foreground.map(|p| p.0)));
     lines.push(format!("status={}", env.exit_status.0));
     lines.push(format!("jobs={}", env.jobs.len()));
+    // (jobs the shell still owns, i.e. may wait for: none in a subshell)
+    lines.push(format!("ownedjobs={}", env.jobs.iter().filter(|(_, j)| j.is_owned).count()));
     lines.push(format!("lastasync={}", env.jobs.last_async_pid().0));
     {
         use yash_env::stack::Frame;
